@@ -80,6 +80,9 @@ ProgsThree == Writers1 \X Writers1 \X Readers2
 FlatWriters == { <<Ld("B", DefX)>>, <<Ld("A", DefR2)>>, <<[op |-> "Remove", n |-> "A"]>>, <<[op |-> "Clear"]>>,
                  <<Ld("base", DefRD)>>, <<Ld("A", DefX), [op |-> "Remove", n |-> "base"]>> }
 ProgsFlat == (FlatWriters \X Readers2) \cup (FlatWriters \X FlatWriters)
+ProgsFlatQuick == ({ <<Ld("base", DefRD)>>, <<Ld("A", DefR2)>>, <<[op |-> "Remove", n |-> "A"]>>, <<[op |-> "Clear"]>> }
+                     \X { <<Rn("base", "tpl")>>, <<Rn("A", "doc")>>, <<Rn("base", "tpl"), Rn("A", "doc")>> })
+                  \cup ({ <<Ld("A", DefR2)>>, <<Ld("base", DefRD)>> } \X { <<[op |-> "Clear"]>>, <<[op |-> "Remove", n |-> "A"], Ld("A", DefX)>> })
 
 \* ---- helpers ------------------------------------------------------------------
 RECURSIVE RunSeq(_, _), RunSeqB(_, _)
